@@ -311,6 +311,38 @@ def precompute_code():
 
 
 # ------------------------------------------------------------------ jobs in fresh interpreters (histories)
+class LibraryFailure(Exception):
+    """a history job died of an exception raised inside library code on input the job considers valid: a finding about the
+    library (reported as a violation by the check), not a tool failure"""
+
+    def __init__(self, job, cls, site, text):
+        Exception.__init__(self, "%s: %s raised in %s" % (job, cls, site))
+        self.job, self.cls, self.site, self.text = job, cls, site, text
+
+
+def _library_failure(job, txt):
+    import re
+    from .common import REPO
+    repo = os.path.realpath(REPO) + os.sep
+    frames = re.findall(r'File "([^"]+)", line (\d+), in (\S+)', txt)
+    last = [l for l in txt.strip().splitlines() if l and not l.startswith(" ")]
+    if frames and last and os.path.realpath(frames[-1][0]).startswith(repo):
+        fn, ln, func = frames[-1]
+        site = "%s.%s" % (os.path.splitext(os.path.basename(fn))[0], func)
+        return LibraryFailure(job, last[-1].split(":")[0].split(".")[-1], site, txt[-3000:])
+    return None
+
+
+def get_or_report(rep, pid, jobs, timeout):
+    """results of FreshJobs `jobs`; a job killed by the library becomes a violation and contributes no events"""
+    try:
+        return list(jobs.get(timeout=timeout))
+    except LibraryFailure as e:
+        rep.violation("%s:valid-input:%s@%s" % (pid, e.cls, e.site),
+                      "a library call on valid input made while recording a history failed (%s), job %s" % (e, e.job), {"traceback": e.text})
+        return []
+
+
 class FreshJobs:
     """Run module-level functions `module.func(arg)` each in a NEW python interpreter (nothing inherited from this process:
     no library state, no locks of other threads), concurrently; results come back pickled.  A job that fails is a
@@ -342,6 +374,9 @@ class FreshJobs:
                 p.kill()
                 raise MachineryError("history job %s timed out" % name)
             if p.returncode != 0 or not os.path.exists(fout):
+                lf = _library_failure(name, txt.decode(errors="replace"))
+                if lf is not None:
+                    raise lf
                 raise MachineryError("history job %s failed:\n%s" % (name, txt.decode(errors="replace")[-3000:]))
             with open(fout, "rb") as f:
                 out.append(pickle.load(f))
